@@ -261,6 +261,8 @@ func permute(n int, f func([]int)) {
 	rec(0)
 }
 
+var nasHeld held // the previous case's encoding, re-examined after the next encode
+
 func nasRunCase(r *report.Report, l *report.Local, prop string, c nasCase) {
 	t := c.t
 	cs := nasAbstractString(t, c.a) + " (" + c.desc + ")"
@@ -321,6 +323,15 @@ func nasRunCase(r *report.Report, l *report.Local, prop string, c nasCase) {
 	if perr := recoverErr(func() { libB, eerr = m.PlainNasEncode() }); perr != nil || eerr != nil {
 		r.Violate(key("encode-error"), cs, fmt.Sprint(perr, eerr), nil)
 		return
+	}
+	nasHeld.next(r, "result/changed-by-a-later-encode", libB, cs)
+	{
+		// the same message value once more: encoding must not change its argument or depend on the first call
+		var again []byte
+		var aerr error
+		if perr := recoverErr(func() { again, aerr = m.PlainNasEncode() }); perr != nil || aerr != nil || !bytes.Equal(again, libB) {
+			r.Violate(key("second-encode-of-the-same-message-differs"), cs, fmt.Sprintf("%x then %x (%v %v)", libB, again, perr, aerr), nil)
+		}
 	}
 	if prop == "C09" {
 		if !bytes.Equal(libB, refB) {
